@@ -51,7 +51,22 @@ class Stop:
             a1.post_fifo(Event(signal="A", payload="e%d" % k))
         info = {}
         if p["mode"] == "outside":
+            go = sched.CEvent()
+            if p.get("racer_post"):
+                # another thread starts a timed source on the object while stop() is at work
+                def race():
+                    go.wait()
+                    if p["racer_post"] == "late":
+                        a1.thread.join()        # ... namely while it cancels the timed sources, after the object's thread has ended
+                    try:
+                        a1.post_fifo(Event(signal="D", payload="racer"), period=0.5, times=0, deferred=True)
+                    except Exception as e:  # noqa
+                        info["racer_exception"] = "%s: %s" % (type(e).__name__, e)
+                    info["racer_step"] = s.steps
+                sched.CThread(target=race, name="racer").start()
+
             def stopper():
+                go.set()
                 a1.stop()
                 info["stop_step"] = s.steps
                 info["alive_after"] = a1.thread._vt is not None and not a1.thread._vt.finished
@@ -100,9 +115,13 @@ class Stop:
             late = [x for x in o["rtc1"] if x[0] > ss]
             if late:
                 out.append((tag + "/step-after-stop", "run-to-completion steps %r began after stop() had returned (step %d)" % (late, ss)))
-            if any(o["flags_after"]) or o["tracked_after"]:
+            # a source started by another thread while stop() was at work may be ordered after it: it owes nothing
+            slack = 1 if p.get("racer_post") else 0
+            if o.get("racer_exception"):
+                out.append((tag + "/racing-post-raised", "a timed post made while stop() was at work raised %s" % o["racer_exception"]))
+            if any(o["flags_after"]) or o["tracked_after"] > slack:
                 out.append((tag + "/sources-not-cancelled", "run flags %r, %d sources still tracked when stop() returned" % (o["flags_after"], o["tracked_after"])))
-            latea = [x for x in o["timer_appends"] if x[0] > ss]
+            latea = [x for x in o["timer_appends"] if x[0] > ss and x[2] != "D/racer"]
             if latea:
                 out.append((tag + "/timer-post-after-stop", "timed sources posted %r after stop() had returned (step %d)" % (latea, ss)))
         else:
@@ -136,6 +155,9 @@ def params(tier):
     for arm in ("deferred", "now"):
         ps.append({"mode": "outside", "pending": 1, "sources": 0, "arm": arm, "bound": 1 if q else 2, "time_horizon": 0.5})
     ps.append({"mode": "outside", "pending": 2, "sources": 1, "arm": "deferred", "bound": 1, "time_horizon": 0.5})
+    for sources in (0, 1):
+        ps.append({"mode": "outside", "pending": 0, "sources": sources, "racer_post": "early", "bound": 1 if q else 2, "time_horizon": 0.5})
+        ps.append({"mode": "outside", "pending": 0, "sources": sources, "racer_post": "late", "bound": 1 if q else 2, "time_horizon": 0.5})
     for pending in (0, 1):
         for sources in (0, 1):
             ps.append({"mode": "handler", "pending": pending, "sources": sources, "bound": 1 if q else 2,
@@ -146,13 +168,17 @@ def params(tier):
 def run(tier):
     res = Result(PID)
     st = explore.explore(Stop("line"), params(tier), 2)
+    # a timed post of another thread landing while stop() walks the tracked sources: needs a switch inside a source line
+    late = [dict(p, bound=1.4) for p in params(tier) if p.get("racer_post") == "late"]
+    st.merge(explore.explore(explore.hybrid(Stop("instr")), late, 1.4))
     ix = None
     if tier != "quick":
         sel = [dict(p, bound=2.015) for p in params(tier) if p["mode"] == "outside" and p["pending"] <= 1 and p["sources"] <= 1][:4]
         ix = explore.extra(st, explore.hybrid(Stop("instr")), sel, 2.015, 1200,
                            "stop() from outside with <= 1 pending event and <= 1 source at instruction granularity (at most one deviation inside a line)")
     fill(res, st, 2, "line", "; stop() from another thread / from a handler x 0-2 pending events x 0-2 timed sources, "
-         "a second active object and the fabric as bystanders")
+         "a second active object and the fabric as bystanders; a timed post of another thread while stop() is at work (before / "
+         "after the object's thread has ended; the latter also at instruction granularity, one deviation inside a source line)")
     if ix:
         res.coverage["instruction_extra"] = ix
     res.assumptions = ["'after stop() returns' = scheduler step index of the return vs step index of later actions"]
